@@ -39,3 +39,32 @@ package metastore
 //@   facet C18
 //@   opt no-frame
 //@   ensures [C18:key-read-as-standard-padded-base64] err == nil ==> ncalls(DecodeString) == 1 && arg(DecodeString, 1, enc) == base64.StdEncoding && result != nil && result.EncryptedKey == ret(DecodeString, 1, 0)
+
+// ---- C13: the requests are the documented ones (strongly consistent, newest first, one row, conditional insert) ----
+//@ extern aws.Bool
+//@   names v
+//@   ensures result != nil && fresh(result) && *result == v
+//@ extern aws.Int32
+//@   names v
+//@   ensures result != nil && fresh(result) && *result == v
+//@ iface DynamoDBClient.Query
+//@   names ctx, params, optFns
+//@ iface DynamoDBClient.GetItem
+//@   names ctx, params, optFns
+
+//@ func (*Metastore).LoadLatest
+//@   facet C13
+//@   opt no-frame
+//@   requires d != nil && d.svc != nil
+//@   ensures [C13:dynamodb-latest-is-a-strongly-consistent-newest-first-limit-1-query] ncalls(Query) <= 1 && (ncalls(Query) == 1 ==> arg(Query, 1, params) != nil && arg(Query, 1, params).ConsistentRead != nil && *arg(Query, 1, params).ConsistentRead && arg(Query, 1, params).ScanIndexForward != nil && !*arg(Query, 1, params).ScanIndexForward && arg(Query, 1, params).Limit != nil && *arg(Query, 1, params).Limit == 1 && *arg(Query, 1, params).TableName == d.tableName)
+
+//@ func (*Metastore).Load
+//@   facet C13
+//@   opt no-frame
+//@   requires d != nil && d.svc != nil
+//@   ensures [C13:dynamodb-load-is-a-strongly-consistent-exact-key-read] ncalls(GetItem) <= 1 && (ncalls(GetItem) == 1 ==> arg(GetItem, 1, params) != nil && arg(GetItem, 1, params).ConsistentRead != nil && *arg(GetItem, 1, params).ConsistentRead && *arg(GetItem, 1, params).TableName == d.tableName)
+
+//@ func (*Metastore).Store
+//@   facet C13
+//@   ensures [C13:dynamodb-store-is-a-conditional-insert] ncalls(PutItem) <= 1 && (ncalls(PutItem) == 1 ==> arg(PutItem, 1, params).ConditionExpression != nil && *arg(PutItem, 1, params).ConditionExpression == "attribute_not_exists(Id)" && *arg(PutItem, 1, params).TableName == d.tableName)
+//@   ensures [C13:dynamodb-store-reports-stored-only-after-the-insert-succeeded] result ==> retis(PutItem, 1, 1, nil)
